@@ -9,6 +9,7 @@
 import Kskm.Hsm
 import KskmGen.Tables
 import KskmProofs.Lemmas.HsmStore
+import KskmProofs.Lemmas.KmHsmEq
 import KskmProofs.Lemmas.Base64
 import KskmProofs.C14
 namespace Kskm.C15
@@ -975,6 +976,81 @@ theorem signed_octets_hash_on_token (hash : Hasher) (key : P11Key) (data : Bytes
   obtain ⟨h1, h2, _⟩ := hash_on_token_untouched hash key data alg d hk ha hf
   exact ⟨hnd, d.mechanism, hp, h2.symm, by rw [hl, h1]⟩
 
+/-! ## The keymaster's lookups (C19) obey the same theorems
+
+Kskm/Keymaster.lean re-states `find_key_by_label` / `get_p11_key` as programs `Km.findInSlotsP` /
+`Km.getP11KeyP` (so that C19 can run them against a store).  KskmProofs/Lemmas/KmHsmEq.lean proves that their
+oracle interpretation `runTok` EQUALS the `TokM` functions the theorems above are about
+(`C19.km_lookups_are_hsm_lookups`); so each theorem above is, by rewriting, a theorem about the keymaster's
+lookups.  Spelled out for (b), (c), "not found ⇔" and the module order. -/
+
+/-- **(b) for the keymaster**: the first slot that has any matching object has exactly one ⇒ the outcome —
+    result, operation count and log — is that of reading this object; later slots play no role. -/
+theorem km_find_first (st : Store) (ok : String → Nat → Bool) (m : P11Module) (label : String)
+    (cls : Nat) (hh : Option Bool) (pre post : List Nat) (s₀ : Nat) (o : StoreObj)
+    (hpre : ∀ sl ∈ pre, matching st m label cls sl = [])
+    (hone : matching st m label cls s₀ = [o]) (s : TokState) :
+    (Km.findInSlotsP m label cls hh (pre ++ s₀ :: post)).runTok (storeToken st ok) s =
+      (Km.foundKeyP m label cls hh s₀ o.handle).runTok (storeToken st ok)
+        ((afterEmpty m label cls pre s).push (findOp m label cls s₀) (.handles [o.handle])) := by
+  rw [Km.runTok_findInSlotsP, Km.runTok_foundKeyP]
+  exact find_first st ok m label cls hh pre post s₀ o hpre hone s
+
+/-- **(c) for the keymaster**: two objects under one label in the first non-empty slot are the runtime
+    error, whatever later slots hold (so `keygen` / `keydel` stop there). -/
+theorem km_find_duplicate (st : Store) (ok : String → Nat → Bool) (m : P11Module) (label : String)
+    (cls : Nat) (hh : Option Bool) (pre post : List Nat) (s₀ : Nat) (o₁ o₂ : StoreObj) (os : List StoreObj)
+    (hpre : ∀ sl ∈ pre, matching st m label cls sl = [])
+    (htwo : matching st m label cls s₀ = o₁ :: o₂ :: os) (s : TokState) :
+    (Km.findInSlotsP m label cls hh (pre ++ s₀ :: post)).runTok (storeToken st ok) s =
+      (.error (.error .runtime),
+        (afterEmpty m label cls pre s).push (findOp m label cls s₀)
+          (.handles (o₁.handle :: o₂.handle :: os.map (·.handle)))) := by
+  rw [Km.runTok_findInSlotsP]
+  exact find_duplicate st ok m label cls hh pre post s₀ o₁ o₂ os hpre htwo s
+
+/-- **"not found" ⇔ no session slot holds the label**, for the keymaster's lookup -/
+theorem km_find_none_iff (st : Store) (ok : String → Nat → Bool) (m : P11Module) (label : String)
+    (cls : Nat) (hh : Option Bool) (slots : List Nat) (s : TokState) :
+    (∃ s', (Km.findInSlotsP m label cls hh slots).runTok (storeToken st ok) s = (.ok none, s')) ↔
+      ∀ sl ∈ slots, matching st m label cls sl = [] := by
+  rw [Km.runTok_findInSlotsP]
+  exact find_none_iff st ok m label cls hh slots s
+
+/-- **found ⇒** exactly one object in the first slot that has any, with its slot, module and handle —
+    `find_iff` for the keymaster's lookup -/
+theorem km_find_iff (st : Store) (ok : String → Nat → Bool) (m : P11Module) (label : String)
+    (cls : Nat) (hh : Option Bool) (slots : List Nat) (s s' : TokState) (key : P11Key)
+    (hr : (Km.findInSlotsP m label cls hh slots).runTok (storeToken st ok) s = (.ok (some key), s')) :
+    ∃ pre s₀ post o, slots = pre ++ s₀ :: post ∧
+      (∀ sl ∈ pre, matching st m label cls sl = []) ∧ matching st m label cls s₀ = [o] ∧
+      key.slot = s₀ ∧ key.module = m.path ∧ key.label = label ∧ key.keyClass = cls ∧
+      key.hashUsingHsm = hh ∧
+      key.privHandle = (if cls ≠ ckoPublic then some o.handle else none) ∧
+      key.pubHandle = (if cls ≠ ckoSecret then some o.handle else none) ∧
+      ∃ reads, s'.log = reads ++ (findOp m label cls s₀, .handles [o.handle]) ::
+          emptyAnswers m label cls pre ++ s.log ∧
+        ∀ e ∈ reads, IsGetAttrOf m.path s₀ o.handle e.1 := by
+  rw [Km.runTok_findInSlotsP] at hr
+  exact find_iff st ok m label cls hh slots s s' key hr
+
+/-- **modules in order, a hit ends the search** — for EVERY token, the keymaster's `get_p11_key` -/
+theorem km_getP11Key_first_module (label : String) (isPublic : Bool) (hh : Option Bool) (tok : Token)
+    (mods : List P11Module) (s s' : TokState) (k : P11Key)
+    (h : (Km.getP11KeyP label isPublic hh mods).runTok tok s = (.ok (some k), s')) :
+    ∃ pre m post s₁, mods = pre ++ m :: post ∧
+      (Km.getP11KeyP label isPublic hh pre).runTok tok s = (.ok none, s₁) ∧
+      (Km.findInSlotsP m label (classOf isPublic) hh m.sessions).runTok tok s₁ = (.ok (some k), s') ∧
+      k.module = m.path ∧ k.slot ∈ m.sessions ∧
+      (∀ post', (Km.getP11KeyP label isPublic hh (pre ++ m :: post')).runTok tok s = (.ok (some k), s')) ∧
+      ∃ l, s'.log = l ++ s.log ∧ ∀ e ∈ l, IsReadAmong (pre ++ [m]) e.1 := by
+  rw [Km.runTok_getP11KeyP] at h
+  obtain ⟨pre, m, post, s₁, h1, h2, h3, h4, h5, h6, h7⟩ := getP11Key_first_module label isPublic hh tok mods s s' k h
+  refine ⟨pre, m, post, s₁, h1, ?_, ?_, h4, h5, ?_, h7⟩
+  · rw [Km.runTok_getP11KeyP]; exact h2
+  · rw [Km.runTok_findInSlotsP]; exact h3
+  · intro post'; rw [Km.runTok_getP11KeyP]; exact h6 post'
+
 /-! ## Non-vacuity (Part 2): a concrete healthy token with one RSA key in the second slot -/
 
 def exObj : StoreObj :=
@@ -1011,5 +1087,11 @@ example : [0, 1, 2].Nodup ∧
 -- EC answers: a wrapped P-256 point meets the hypotheses of `derived_key_ec_wrapped`
 example : ecPointOctets ecOidP256 = some 65 ∧ (List.replicate 64 (7 : UInt8)).length + 1 = 65 := by
   decide
+
+-- the keymaster's lookup on the same token: same key, same log (instance of `km_find_first`)
+example : ((Km.findInSlotsP exMod "K" ckoPublic none [0, 1, 2]).runTok exTok {}).1 =
+    .ok (some { label := "K", keyType := .rsa, keyClass := ckoPublic, publicKey := some "AwEAAYAB",
+                module := "mod", slot := 1, pubHandle := some 7 }) := by
+  rw [Km.runTok_findInSlotsP]; decide +kernel
 
 end Kskm.C15
